@@ -253,7 +253,7 @@ func c05Monitor(obs *Obs, conns []c05Conn, res *Result) {
 func connsOf(sc *Scenario) []c05Conn {
 	var out []c05Conn
 	for _, a := range sc.Actors {
-		if a.Kind != "tcp" && a.Kind != "udp" {
+		if a.Kind != "tcp" && a.Kind != "udp" && a.Kind != "sshsess" {
 			continue
 		}
 		c := c05Conn{src: a.Src, dstIP: hostOf(a.Dst), dstPort: portOf(a.Dst), udp: a.Kind == "udp"}
